@@ -13,7 +13,7 @@ CLAIMS = {
           "the label-creating first pass; switch shapes; PoolRead::read tag -> layout -> variant -> slot count, as_X destructuring, method-handle kind "
           "table, loadable/constant-value kind sets; no table filled by the reader is dropped (write-only accumulator) and every visitor method has a "
           "call site; attribute dispatch per location; the nine access-flag conversion tables (field <-> JVMS mask); verification-type, frame-type, "
-          "element-value, target-type, type-path tag tables and 4-byte alignment.",
+          "element-value, target-type, type-path tag tables and 4-byte alignment. (R01.13) every counted loop of the reader (`for _ in 0..count`) delivers one element per iteration: no continue/break, every push unconditional; (R01.11) switch padding evaluated at stream positions 0..7. Premises evaluated with it: C17 R17.4 (the tree builder stores each group where the replay reads it) and C02 R02.1 attr-source.",
   "note": "Not decided: that labels denote the right instruction for every byte stream, frame attachment, modified-UTF-8 decoding, bootstrap "
           "argument values, i.e. read_class(bytes) == ground truth as a value-level law. 2 recorded findings (parameter annotations skipped). "
           "Trusted: rustc HIR/typeck/const-eval; spec/jvms_tables.json transcribed from JVMS ch. 4/6.",
@@ -25,7 +25,7 @@ CLAIMS = {
           "table evaluated through the call site's argument order (pattern-matrix evaluation, not execution), the optional cut and compile default, "
           "the recursion continuing with the composed scope, conflict identity = {group, artifact, classifier, type} in both the collision id and the "
           "management lookup, first-seen retain predicate, FIFO level-by-level retain shape, managed version/scope/optional operand order, import-scope "
-          "splice + skip, own-before-parent order for dependencies and management, scope and coordinate print/parse tables, resolver order.",
+          "splice + skip, own-before-parent order for dependencies and management, scope and coordinate print/parse tables, resolver order. The collision identity is evaluated at every type string known to the crate's type tables (type, not extension).",
   "note": "Not decided: equality with Maven on all POM universes (value-level behaviour of the recursion, async downloads, XML parsing). "
           "Trusted: rustc's HIR/typeck/const-eval; spec/maven.json transcribed from the Maven documentation.",
   "technique": "static analysis: decision-table extraction (pattern-matrix evaluation over const-evaluated patterns) + structural HIR rules",
@@ -48,7 +48,7 @@ CLAIMS = {
           "class/field/method reference and requires it to be produced by the remapping machinery applied to the same-named source position; all other "
           "positions must be the source position unchanged; constants in output positions are drops. Plus: atom -> BRemapper query table, members "
           "mapped with the original owner name, generic Option/Vec plumbing, jar entry-name rewrite (.class suffix, map_class, stored under new name), "
-          "non-class entries copied, ClassRepr read table.",
+          "non-class entries copied, ClassRepr read table. (R07.2 additions) every entry of the input jar yields an output entry (no filter/continue), a zip entry is a class exactly when its name ends in `.class`. Premises evaluated with it: C06 R06.1/R06.4 (BRemapper default methods, map_desc), C02 R02.1-3 (writer layout, lengths, attribute counts).",
   "note": "Not decided: that the remapper's answers are right (C06), that the written jar re-opens (zip validity), that duke writes the remapped class "
           "correctly (C02). 15 recorded findings (unremapped signatures/inner names/annotation names/indy name, dropped module/record/unknown attributes) "
           "are listed in known_findings.json by exact (type, field) key. Trusted: rustc HIR/typeck; the atom list in rules/c07.py.",
